@@ -113,6 +113,10 @@ class Simulator:
                 leaf = self.propagatables[i]
                 pos = self.findFirstDependentPosition(leaf)
                 
+                if (pos == i):
+                    # the leaf reads one of its own outputs
+                    raise Exception('Combinational loop in {}'.format(leaf.getFullPath()))
+                
                 if (pos >= 0 and pos < i):
                     # exchange position, put dependent last
                     first = self.propagatables[pos]
